@@ -6,10 +6,12 @@ SPEC = {
     "bin": "c11",
     "sizes": {"quick": 300000, "thorough": 12000000},
     "search_n": 2000000,
-    "rule": ("exhaustive small part (n<=12 quick / n<=40 thorough: every shard x 4 boundary ranges x iter/draw; "
-             "boundary tokens x msb {0,1,12,63}) + seeded random cases: S=shard_of(n,msb,token), I=port iterator, "
-             "D=drawn port, P=shard_of_source_port, R=ShardInfo parsing; non-trivial = every case except "
-             "R cases with all three entries missing; distinct = distinct case lines"),
+    "min_cases": {"quick": 300000, "thorough": 11000000},
+    "rule": ("exhaustive part: I/D for n<=12 (thorough 40) x every shard x 4 boundary ranges; S for every n<=64 x every msb 0..63 x "
+             "fixed boundary tokens + first/last token of every shard (msb 0) / directed near-boundary tokens; directed ShardInfo "
+             "boundary (shard = nr-1, nr, nr+1; nr = 0). Seeded random part: S=shard_of(n,msb,token) with 3/8 of the tokens within "
+             "+-2 of a shard boundary of the case's own sharder (both sides), I=port iterator, D=drawn port, P=shard_of_source_port, "
+             "R=ShardInfo parsing. Non-trivial = every case except R cases with all three entries missing; distinct = distinct case lines"),
     "nontrivial": lambda ln: not ln.startswith("R N N N"),
     "trusted_base": [
         "spec_shard_of / spec_ports are the ScyllaDB definitions transcribed from the property text",
